@@ -42,14 +42,16 @@ pub fn parse_csv_row(row: &str) -> Vec<String> {
     let mut features = vec![];
     let mut rdr = csv_core::Reader::new();
     let mut bytes = row.as_bytes();
-    let mut output = [0; 4096];
+    // A field never unquotes to more bytes than it occupies in the row, so a buffer of the
+    // size of the row can hold any of its fields and the reader never reports `OutputFull`.
+    let mut output = vec![0; row.len()];
     loop {
         let (result, nin, nout) = rdr.read_field(bytes, &mut output);
         let end = match result {
             ReadFieldResult::InputEmpty => true,
             ReadFieldResult::Field { .. } => false,
             ReadFieldResult::End => true,
-            _ => unreachable!(),
+            ReadFieldResult::OutputFull => unreachable!(),
         };
         features.push(std::str::from_utf8(&output[..nout]).unwrap().to_string());
         if end {
